@@ -70,6 +70,7 @@ func runL1Script(script []c18Op) (trace string, bridges int) {
 	for i := 0; i < 3; i++ {
 		e.Chan.Set(e.Ctx, "transfer", fmt.Sprintf("channel-%d", i), 1)
 	}
+	e.Chan.Set(e.Ctx, "transfer", "channel-8", 5) // a channel that has carried packets already
 	type out struct {
 		o *mOutput
 	}
@@ -109,6 +110,17 @@ func runL1Script(script []c18Op) (trace string, bridges int) {
 			cfg := henv.DefaultBridgeConfig(p.Str, ch.Str, period)
 			if op.S == "channels" {
 				cfg.Metadata = []byte(fmt.Sprintf(`{"perm_channels":[{"port_id":"transfer","channel_id":"channel-%d"}]}`, len(brs)%3))
+			}
+			if op.S == "channels-many" {
+				// several channels in one list: free ones, ones another bridge has taken, one that does not exist and
+				// one that has already carried packets - when more than one cannot be taken, which refusal the
+				// creator gets is part of the result
+				names := []string{"channel-0", "channel-1", "channel-2", "channel-7", "channel-8"}
+				var items []string
+				for k := 0; k < 2+op.A%3; k++ {
+					items = append(items, fmt.Sprintf(`{"port_id":"transfer","channel_id":"%s"}`, names[(op.A*(k+1)+op.B+k*int(op.C))%5]))
+				}
+				cfg.Metadata = []byte(`{"perm_channels":[` + strings.Join(items, ",") + `]}`)
 			}
 			r := e.Deliver(ophosttypes.NewMsgCreateBridge(p.Str, cfg))
 			emit(op, r)
@@ -218,7 +230,7 @@ func genL1Script(rt *rapid.T) []c18Op {
 		case "role":
 			op.S = rapid.SampledFrom([]string{"", `{"perm_channels":[]}`, "md"}).Draw(rt, "s")
 		case "create":
-			op.S = rapid.SampledFrom([]string{"", "channels"}).Draw(rt, "s")
+			op.S = rapid.SampledFrom([]string{"", "channels", "channels-many", "channels-many"}).Draw(rt, "s")
 		case "advance":
 			op.C = int64(rapid.SampledFrom([]int{0, 1, 9, 10, 61, 3600}).Draw(rt, "dt"))
 		}
@@ -280,6 +292,9 @@ func runL2Script(script []c18Op) (trace string, maxLeaving int, oracleUpdates in
 	if err := l2.K.UpdateHostValidatorSet(l2.Ctx, c15ClientID, 5, set); err != nil {
 		panic(err)
 	}
+	hostHeight, hostGen := int64(5), 0
+	heldTs := int64(0)
+	var held sdk.Msg // an oracle update that sits in the mempool and is delivered later (or never)
 	// L1 timestamps of 2023 or of 2100, chosen by the script
 	ts := int64(1_700_000_000_000_000_000)
 	if len(script) > 0 && script[0].A%2 == 1 {
@@ -329,6 +344,9 @@ func runL2Script(script []c18Op) (trace string, maxLeaving int, oracleUpdates in
 				b.Deliver(opchildtypes.NewMsgInitiateTokenWithdrawal(users[op.A%4].Str, "noise", coinOf(denoms[op.A%2], 1)))
 				m, _ := opchildtypes.NewMsgAddValidator("noise", b.Authority, ops[op.B%6].String(), key(op.A%6))
 				b.Deliver(m)
+				if held != nil {
+					b.Deliver(held) // the mempool checks (simulates) the waiting oracle update again
+				}
 				// the rest of the block executed ahead of time (optimistic execution, a proposal that is not
 				// the one that gets committed): end of block on the branch
 				_, _ = b.EndBlock()
@@ -398,6 +416,31 @@ func runL2Script(script []c18Op) (trace string, maxLeaving int, oracleUpdates in
 			emit(op, l2.Deliver(opchildtypes.NewMsgFinalizeTokenDeposit(exec.Str, users[0].Str, to, amount, seq, 7, bases[op.B%2], data)))
 		case "withdraw":
 			emit(op, l2.Deliver(opchildtypes.NewMsgInitiateTokenWithdrawal(users[op.A%4].Str, users[op.B%4].Str, coinOf(denoms[op.B%2], op.C%20+1))))
+		case "hostvals":
+			// the light client of L1 is updated: the set of L1 validators the oracle checks against is replaced
+			// (one or all of them leave), known as of the next L1 height
+			hostGen++
+			hostHeight++
+			set := &cmtproto.ValidatorSet{}
+			for i := range hostVals {
+				if op.A%2 == 0 || i == int(op.B%4) {
+					k := henv.MakeConsKey(fmt.Sprintf("c18-host-%d-gen%d", i, hostGen))
+					hostVals[i] = c15Val{priv: k, power: int64(10 + i), addr: k.PubKey().Address()}
+				}
+				pk, _ := cryptocodec.ToCmtProtoPublicKey(hostVals[i].priv.PubKey())
+				set.Validators = append(set.Validators, &cmtproto.Validator{Address: hostVals[i].addr, PubKey: pk, VotingPower: hostVals[i].power})
+			}
+			err := l2.K.UpdateHostValidatorSet(l2.Ctx, c15ClientID, hostHeight, set)
+			fmt.Fprintf(&sb, "%s => L1 validator set of height %d registered: %v\n", op, hostHeight, err)
+		case "oracle-late":
+			if held != nil {
+				r := l2.Deliver(held)
+				emit(op, r)
+				if r.OK() && heldTs > maxApplied {
+					maxApplied = heldTs
+				}
+				held = nil
+			}
 		case "oracle":
 			// timestamps mostly increase; one update in four carries an older one, and updates may carry a
 			// subset of the pairs, so that an update can be refused for some pairs after others were written
@@ -426,15 +469,27 @@ func runL2Script(script []c18Op) (trace string, maxLeaving int, oracleUpdates in
 					prices[id] = bz
 				}
 				ext, _ := c15VeCodec.Encode(vetypes.OracleVoteExtension{Prices: prices})
-				signHeight := int64(5)
+				signHeight := hostHeight
 				if op.B%5 == 4 && vi >= 1 {
-					signHeight = 4 // several votes in this commit do not verify: the update is refused, everywhere with the same error
+					signHeight = hostHeight - 1 // several votes in this commit do not verify: the update is refused, everywhere with the same error
 				}
 				sig, _ := v.priv.Sign(c15SignBytes(c15ChainID, signHeight, 1, ext))
 				votes = append(votes, cometabci.ExtendedVoteInfo{Validator: cometabci.Validator{Address: v.addr, Power: v.power}, VoteExtension: ext, ExtensionSignature: sig, BlockIdFlag: cmtproto.BlockIDFlagCommit})
 			}
 			data, _ := c15EcCodec.Encode(cometabci.ExtendedCommitInfo{Round: 1, Votes: votes})
-			r := l2.Deliver(opchildtypes.NewMsgUpdateOracle(exec.Str, 6, data))
+			oracleMsg := opchildtypes.NewMsgUpdateOracle(exec.Str, uint64(hostHeight+1), data)
+			if op.S == "hold" {
+				// the executor has broadcast it, but it is not included yet: with uncommitted work switched on the
+				// node checks it right away (on a branch), a later "oracle-late" delivers it - perhaps after the
+				// L1 validator set it was signed by has been replaced
+				held, heldTs = oracleMsg, ts
+				fmt.Fprintf(&sb, "%s => held back\n", op)
+				if c18Noise {
+					branchL2(l2, func(b *henv.L2) { b.Deliver(held) })
+				}
+				continue
+			}
+			r := l2.Deliver(oracleMsg)
 			emit(op, r)
 			if r.OK() {
 				oracleUpdates++
@@ -468,8 +523,11 @@ func genL2Script(rt *rapid.T) []c18Op {
 	var s []c18Op
 	n := rapid.IntRange(15, 50).Draw(rt, "len")
 	for i := 0; i < n; i++ {
-		k := drawWeighted(rt, "op", []weighted{{"add", 5}, {"remove", 4}, {"block", 5}, {"deposit", 5}, {"withdraw", 3}, {"oracle", 3}, {"plan", 2}, {"params", 1}})
+		k := drawWeighted(rt, "op", []weighted{{"add", 5}, {"remove", 4}, {"block", 5}, {"deposit", 5}, {"withdraw", 3}, {"oracle", 3}, {"plan", 2}, {"params", 1}, {"hostvals", 1}, {"oracle-late", 2}})
 		op := c18Op{Kind: k, A: rapid.IntRange(0, 11).Draw(rt, "a"), B: rapid.IntRange(0, 11).Draw(rt, "b"), C: int64(rapid.IntRange(0, 1000).Draw(rt, "c"))}
+		if k == "oracle" && rapid.IntRange(0, 3).Draw(rt, "hold") == 0 {
+			op.S = "hold"
+		}
 		if k == "deposit" && rapid.IntRange(0, 3).Draw(rt, "hook") == 0 {
 			op.S = "hook"
 		}
